@@ -57,10 +57,15 @@ func VH_C10_Chain() {
 	dynamic := symBool()
 	x := symStringIn(1, vhValAlphabet)
 	kinds := map[string][]int{}
-	for _, b := range vhC10Blocks {
+	nb := symParam("B", len(vhC10Blocks)) // blocks whose treatment varies; the others are never overridden
+	for bi, b := range vhC10Blocks {
 		ks := []int{vhDefined}
 		for l := 1; l <= depth; l++ {
-			ks = append(ks, symChoice(4))
+			if bi < nb {
+				ks = append(ks, symChoice(4))
+			} else {
+				ks = append(ks, vhAbsent)
+			}
 		}
 		kinds[b] = ks
 	}
